@@ -25,7 +25,7 @@ import (
 // layouts
 
 func newGramCtx(w *World, gp *gramParser) *gramCtx {
-	g := &gramCtx{W: w, Layout: map[string][]yItem{}, LayoutSrc: map[string]string{}, Builder: map[string]*builderSem{}}
+	g := &gramCtx{W: w, carrier: map[string]bool{}, Layout: map[string][]yItem{}, LayoutSrc: map[string]string{}, Builder: map[string]*builderSem{}}
 	// real ast kinds: from the printer's trace (first path; C15 checks all paths agree)
 	pkg := modPath + "/pkg/visitor/printer"
 	f := loadFamily(w, pkg, "(*printer)")
@@ -413,6 +413,9 @@ func (y *yielder) ofList(v gv) []yAtom {
 		return nil
 	case *gList:
 		var out []yAtom
+		for _, e := range x.Pre {
+			out = append(out, y.ofNode(e)...)
+		}
 		if x.Base != nil {
 			b := x.Base
 			if b.Kind != "list" {
@@ -420,6 +423,8 @@ func (y *yielder) ofList(v gv) []yAtom {
 			}
 			y.seen[b]++
 			if d, ok := y.r.facts[fmt.Sprintf("lnil:%d", b.ID)]; ok && d {
+				y.seen[b]--
+			} else if d, ok := y.r.facts[fmt.Sprintf("lempty:%d", b.ID)]; ok && d {
 				y.seen[b]--
 			} else if !b.LNonEmpty {
 				y.seen[b]--
@@ -449,6 +454,9 @@ func (y *yielder) ofIL(iv, sv gv) []yAtom {
 	}
 	if !okI || !okS {
 		return []yAtom{{Kind: "bad", Note: "separated list slots hold " + describeG(iv) + " / " + describeG(sv)}}
+	}
+	if len(il.Pre) > 0 || len(sl.Pre) > 0 {
+		return []yAtom{{Kind: "bad", Note: "separated list with elements in front of an opaque list"}}
 	}
 	ib, sb := il.Base, sl.Base
 	if ib != nil {
@@ -724,7 +732,9 @@ func (g *gramCtx) checkGrammar(c *CheckCtx, gp *gramParser, want gramWant) *gram
 			if rule.Num == 1 {
 				rhs = append(rhs, yAtom{Kind: "tok", Obj: r.cur})
 			}
-			if rule.HasError {
+			if rule.HasError || r.cbCalls > 0 {
+				// an error rule, or a path on which the action reports an error: C02 does not
+				// apply (it speaks of error-free parses); tokens may be dropped but not invented
 				if !subAtoms(lhs, rhs) {
 					subBad = append(subBad, fmt.Sprintf("[path: %s] yield($$) = %s is not a sub-sequence of %s", pd, atomsString(lhs), atomsString(rhs)))
 				}
@@ -847,6 +857,9 @@ func (g *gramCtx) render(r *gRun, v gv, depth int) string {
 		return head + "{" + strings.Join(parts, ", ") + "}"
 	case *gList:
 		var parts []string
+		for _, e := range x.Pre {
+			parts = append(parts, g.render(r, e, depth+1))
+		}
 		if x.Base != nil {
 			parts = append(parts, x.Base.Origin+"...")
 		}
